@@ -60,9 +60,9 @@ class Spec(unit.UnitSpec):
                 "Mmtk.Map32.alloc_fails_exact", "Mmtk.Map32.history_alloc_fails_exact"]
     component = "map32"
     relation = "Mmtk.Map32.* ≙ util::heap::layout::map32::Map32 (+ run-level behaviour of util::freelist) via verif::layout::map32"
-    assumptions = ["PARTIAL: only per-operation lemmas are proved in Lean (descriptor writes, link splice, avail arithmetic); the four "
-                   "history-level invariants (regions_disjoint, descriptor_exact, links_exact, avail_exact) are checked on the "
-                   "implementation by the oracle below and against the executable model, not yet proved by induction",
+    assumptions = ["histories follow the callers' protocol (`Pre`): allocate with k >= 1 and head = 0 or the current head of a list; "
+                   "free of the start of an allocated region; free_all from 0 or a chunk on a list of at most 4097 regions (the "
+                   "model's two free_all loops are fuel-bounded at 4096; the Rust loops are not)",
                    "the region map is modelled at run level (partition into runs + free-list order); the bit-level table is C26's",
                    "single-threaded use (Map32's own mutex); global SFT_MAP = 32-entry space map (default layout), cleared harmlessly"]
     rule = ("histories of 4..40 ops on a private Map32 finalised over chunks 100..131: allocate_contiguous_chunks for 1..4 "
@@ -249,9 +249,9 @@ class Spec(unit.UnitSpec):
 
 
 META = {
-    "text": 'PARTIAL. Executable Lean model of Map32 (run-level region map with first-fit free-list order, prev/next links, descriptors, avail) compared exactly with a private Map32 on alloc/free/free-all histories for several spaces (heads, middles, tails, exhaustion, coalescing); the property statement (regions disjoint, descriptors exact, links exact, avail exact) is evaluated on the implementation after every op. Lean: per-operation lemmas only (descriptor writes, link splice, avail arithmetic); the history-level invariants are not yet proved.',
-    "note": 'Not a finished proof: the four invariants of C29 still need the inductive invariant over the run-level free list. Trusted: hand-written model, sampling differential, add-only hooks (private Map32, prev_link accessor, global SFT map initialised).',
-    "technique": 'Lean 4 model + per-op lemmas + exact differential + statement oracle (partial)',
+    "text": 'Executable Lean model of Map32 (run-level region map with first-fit free-list order, prev/next links, descriptors, avail) compared exactly with a private Map32 on alloc/free/free-all histories for several spaces (heads, middles, tails, exhaustion, coalescing); the property statement (regions disjoint, descriptors exact, links exact, avail exact) is evaluated on the implementation after every op. Lean: the inductive invariant Inv (regions_disjoint, descriptor_exact, links_exact, avail_exact + the run-level free-list invariant) is proved for the finalised state and preserved by allocate / free / free_all; history_inv, history_no_panic (no assertion of the code fires on a protocol-respecting history) and the four user-facing corollaries follow by induction over operation lists; alloc_fails_exact: an allocation returns 0 only when no run of k free chunks exists.',
+    "note": 'Trusted: hand-written model, sampling differential, add-only hooks (private Map32, prev_link accessor, global SFT map initialised).',
+    "technique": 'Lean 4 proof (inductive invariant over all protocol-respecting histories of the run-level Map32 model) + exact differential + statement oracle',
 }
 
 
